@@ -1393,15 +1393,19 @@ RCP<const Set> Intersection::set_complement(const RCP<const Set> &o) const
 
 RCP<const Boolean> Intersection::contains(const RCP<const Basic> &o) const
 {
+    // a member of the intersection is a member of every operand
+    bool undecided = false;
     for (auto &a : container_) {
         auto contain = a->contains(o);
-        if (eq(*contain, *boolTrue)) {
-            return boolean(true);
+        if (eq(*contain, *boolFalse)) {
+            return boolean(false);
         }
         if (is_a<Contains>(*contain))
-            throw NotImplementedError("Not implemented");
+            undecided = true;
     }
-    return boolean(false);
+    if (undecided)
+        throw NotImplementedError("Not implemented");
+    return boolean(true);
 }
 
 RCP<const Set> Intersection::create(const set_set &in) const
